@@ -25,6 +25,7 @@ type Checker struct {
 	badEmit map[string]string
 	emits   int
 	ord     map[ssa.Instruction]string
+	narrow  map[string]string
 }
 
 // New creates the engine.
@@ -34,6 +35,8 @@ func New(p *load.Program) *Checker {
 	c.IP.SumLoops = true
 	c.IP.MergeIfs = true
 	c.IP.KeyGuards = true
+	// documented domains of redundant integer fields: pointer_field is an unsigned byte in the stream
+	c.IP.SuffixLo = map[string]int64{".PointerField": 0, ".StuffingLength": 0}
 	c.IP.AssumeNoTruncation = true
 	c.IP.MaxOut = 9000
 	c.IP.MaxPaths = 2000000
@@ -106,6 +109,48 @@ func (c *Checker) Emit(st *pathint.State, call ssa.CallInstruction, w *pathint.O
 	c.badEmit[c.keyOf(call)] = fmt.Sprintf("%s: %s with operand type %s: the BitsWriter accepts only bool, uint8/16/32/64, []byte and string (fails at run time with \"invalid type\"), WriteN needs an unsigned operand and a constant width", c.P.Pos(call.Pos()), method, types.TypeString(t, nil))
 }
 
+// NarrowArith implements rule A2w: a length computed by + or * in a narrow unsigned type and then widened
+// must provably fit the narrow type, otherwise it wraps although every operand fits its own field.
+func (c *Checker) NarrowArith(st *pathint.State, conv *ssa.Convert, value lin.Form, max int64) {
+	f := conv.Parent()
+	n := 0
+	key := ""
+	for _, b := range f.Blocks {
+		for _, in := range b.Instrs {
+			if cv, ok := in.(*ssa.Convert); ok {
+				if _, isBin := cv.X.(*ssa.BinOp); isBin {
+					n++
+					if cv == conv {
+						key = fmt.Sprintf("%s/widened-narrow-arithmetic#%d", load.FuncName(f), n)
+					}
+				}
+			}
+		}
+	}
+	if key == "" {
+		key = load.FuncName(f) + "/widened-narrow-arithmetic"
+	}
+	if c.narrow == nil {
+		c.narrow = map[string]string{}
+	}
+	if st.ProveSimplified(lin.Const(max).Sub(value)) {
+		if _, bad := c.narrow[key]; !bad {
+			c.narrow[key] = ""
+		}
+		return
+	}
+	c.narrow[key] = fmt.Sprintf("%s: %s is computed in a %d-bit unsigned type and only then widened: it wraps above %d although the destination could hold it", c.P.Pos(conv.Pos()), clean(value.String()), bitsOf(max), max)
+}
+
+func bitsOf(max int64) int {
+	n := 0
+	for max > 0 {
+		n++
+		max >>= 1
+	}
+	return n
+}
+
 // ReportAPI emits the API-type obligations collected so far.
 func (c *Checker) ReportAPI(r *report.Report) {
 	var ks []string
@@ -117,6 +162,23 @@ func (c *Checker) ReportAPI(r *report.Report) {
 		r.Bad("A0", k, "", c.badEmit[k])
 	}
 	r.Count("emission_visits", c.emits)
+	c.ReportNarrow(r)
+}
+
+// ReportNarrow emits the A2w obligations collected so far.
+func (c *Checker) ReportNarrow(r *report.Report) {
+	var nk []string
+	for k := range c.narrow {
+		nk = append(nk, k)
+	}
+	sort.Strings(nk)
+	for _, k := range nk {
+		if c.narrow[k] == "" {
+			r.OK("A2w", k, "", "the narrow sum provably fits its type")
+		} else {
+			r.Bad("A2w", k, "", c.narrow[k])
+		}
+	}
 }
 
 func writerParam(f *ssa.Function) string {
@@ -247,7 +309,7 @@ func (c *Checker) sameUnder(st *pathint.State, a, b lin.Form) (bool, lin.Form, l
 	if a2.Equal(b2) {
 		return true, a2, b2
 	}
-	if st.Prove(a2.Sub(b2)) && st.Prove(b2.Sub(a2)) {
+	if st.ProveSimplified(a2.Sub(b2)) && st.ProveSimplified(b2.Sub(a2)) {
 		return true, a2, b2
 	}
 	return false, a2, b2
@@ -474,4 +536,156 @@ func paramIndex(f *ssa.Function, name string) int {
 		}
 	}
 	return 0
+}
+
+// ExactSize — every success return of fn returns exactly the value of its parameter `param` (writePacket:
+// the packet is padded to, and never exceeds, the target size), and the first thing it emits is the
+// constant first (the sync byte).
+func (c *Checker) ExactSize(r *report.Report, fnKey, param string, first int64) {
+	f := c.P.Func(fnKey)
+	if f == nil {
+		r.Unknown("A1b", fnKey+"/exact-size", "", "anchor function not found")
+		return
+	}
+	found := false
+	for _, p := range f.Params {
+		if p.Name() == param {
+			found = true
+		}
+	}
+	if !found {
+		r.Unknown("A1b", fnKey+"/exact-size", c.P.Pos(f.Pos()), "the function no longer has a parameter named "+param)
+		return
+	}
+	sum := c.IP.Summarize(f)
+	want := lin.Sym("$" + param)
+	bad := map[string]string{}
+	n, nFirst, badFirst := 0, 0, ""
+	for i := range sum.Outcomes {
+		o := &sum.Outcomes[i]
+		if o.ErrNil == pathint.No {
+			continue
+		}
+		if len(o.Results) == 0 || o.Results[0].K != pathint.KInt {
+			bad["?"] = "returned count is not an integer form"
+			continue
+		}
+		hs := c.outcomeState(f, o)
+		if same, got, _ := c.sameUnder(hs, o.Results[0].F, want); !same {
+			bad[guardOf(o)] = fmt.Sprintf("returns %s instead of %s", clean(got.String()), param)
+			continue
+		}
+		n++
+		if len(o.Events) > 0 {
+			e := o.Events[0]
+			if e.Kind == "emit" && e.Width.IsConst() && e.Width.C == 8 && e.Val.K == pathint.KInt && e.Val.F.IsConst() && e.Val.F.C == first {
+				nFirst++
+			} else {
+				badFirst = fmt.Sprintf("first event is %s of %s bits, value %s", e.Kind, e.Width.String(), e.Val.String())
+			}
+		}
+	}
+	pos := c.P.Pos(f.Pos())
+	if len(bad) == 0 && n > 0 {
+		r.OK("A1b", fnKey+"/exact-size", pos, fmt.Sprintf("%d success outcomes all return exactly %s", n, param))
+	} else if n == 0 && len(bad) == 0 {
+		r.Unknown("A1b", fnKey+"/exact-size", pos, "no success outcome found")
+	}
+	var gs []string
+	for g := range bad {
+		gs = append(gs, g)
+	}
+	sort.Strings(gs)
+	for _, g := range gs {
+		r.Bad("A1b", fnKey+"/exact-size/when{"+g+"}", pos, bad[g])
+	}
+	switch {
+	case badFirst != "":
+		r.Bad("A1b", fnKey+"/first-emission", pos, badFirst)
+	case nFirst > 0:
+		r.OK("A1b", fnKey+"/first-emission", pos, fmt.Sprintf("the first emission is the constant %#x on %d outcomes", first, nFirst))
+	default:
+		r.Unknown("A1b", fnKey+"/first-emission", pos, "emission events were not retained for any outcome")
+	}
+}
+
+// NoEmitBeforeLocalError — S5 validate-before-emit: inside fn no emission (a Write* on a bits writer, or a
+// call to a function that emits) can be followed by a return whose error is constructed locally
+// (fmt.Errorf / errors.New / package sentinel): a rejected argument leaves nothing in the output.
+func (c *Checker) NoEmitBeforeLocalError(r *report.Report, fnKey string) {
+	f := c.P.Func(fnKey)
+	if f == nil {
+		r.Unknown("S5", fnKey+"/validate-before-emit", "", "anchor function not found")
+		return
+	}
+	writers := map[*ssa.Function]bool{}
+	for _, w := range c.WriterFuncs() {
+		writers[w] = true
+	}
+	var emits []ssa.Instruction
+	for _, ci := range ssau.Calls(f) {
+		cal := ci.Common().StaticCallee()
+		if cal == nil {
+			continue
+		}
+		if cal.Signature.Recv() != nil {
+			rt := cal.Signature.Recv().Type()
+			if (ssau.IsNamed(rt, load.AstikitPath, "BitsWriter") || ssau.IsNamed(rt, load.AstikitPath, "BitsWriterBatch")) && strings.HasPrefix(cal.Name(), "Write") {
+				emits = append(emits, ci)
+			}
+		}
+		if writers[cal] || writerParam(cal) != "" {
+			emits = append(emits, ci)
+		}
+	}
+	ei := ssau.ErrorResultIndex(f.Signature)
+	nLocal := 0
+	var bad []string
+	for _, ret := range ssau.Returns(f) {
+		if ei < 0 {
+			continue
+		}
+		local := false
+		for _, l := range ssau.Leaves(ret.Results[ei]) {
+			if l != nil && (ssau.IsErrorConstructor(l) || ssau.IsSentinelLoad(l)) {
+				// a wrap of a callee's error is not a local rejection
+				if call, ok := l.(*ssa.Call); ok && wrapsAnotherError(call) {
+					continue
+				}
+				local = true
+			}
+		}
+		if !local {
+			continue
+		}
+		nLocal++
+		for _, e := range emits {
+			if e.Block() == ret.Block() || ssau.Reaches(e.Block(), ret.Block()) {
+				bad = append(bad, fmt.Sprintf("the rejection at %s is reachable after the emission at %s", c.P.Pos(ret.Pos()), c.P.Pos(e.Pos())))
+				break
+			}
+		}
+	}
+	pos := c.P.Pos(f.Pos())
+	if len(bad) > 0 {
+		r.Bad("S5", fnKey+"/validate-before-emit", pos, strings.Join(bad, "; ")+": a rejected call has already put part of a packet into the output")
+		return
+	}
+	r.OK("S5", fnKey+"/validate-before-emit", pos, fmt.Sprintf("%d locally constructed error returns, none reachable from any of the %d emission sites", nLocal, len(emits)))
+}
+
+func wrapsAnotherError(call *ssa.Call) bool {
+	if ssau.CalleeName(&call.Call) != "fmt.Errorf" || len(call.Call.Args) != 2 {
+		return false
+	}
+	vals, ok := ssau.VarargValues(call.Call.Args[1])
+	if !ok {
+		return false
+	}
+	for _, v := range vals {
+		if ssau.IsErrorType(ssau.StripIface(v).Type()) {
+			return true
+		}
+	}
+	return false
 }
